@@ -626,7 +626,8 @@ class Interp:
             res = truths.pop()
             # path fact for the float-order prover: the program itself evaluated this comparison (on floats) and went this way
             ta, tb = getattr(a, "tree", None), getattr(b, "tree", None)
-            if ta is not None and tb is not None:
+            # (not inside a constructor / validator: their comparisons ARE the obligations the prover has to discharge)
+            if ta is not None and tb is not None and not any(f in ("__init__", "validate", "sort") for f in self.__dict__.get("frames", ())):
                 facts = self.__dict__.setdefault("path_facts", [])
                 le_ab = (isinstance(op, (ast.Lt, ast.LtE)) and res) or (isinstance(op, (ast.Gt, ast.GtE)) and not res)
                 if len(facts) < 400:
@@ -753,6 +754,8 @@ class Interp:
         self.call_depth += 1
         if self.call_depth > 40:
             raise Undecided("call depth exceeded")
+        frames = self.__dict__.setdefault("frames", [])
+        frames.append(fn.name)
         try:
             env = dict(closure_env or {})
             env["__fn__"] = fn
@@ -797,6 +800,7 @@ class Interp:
             return None
         finally:
             self.call_depth -= 1
+            frames.pop()
 
     def call_value(self, f, args, kwargs, node=None):
         if isinstance(f, FuncVal):
